@@ -1,9 +1,112 @@
 import ALV.Common.Json
+import ALV.Model.C04
+import ALV.Spec.C04
 namespace ALV.Driver.C04
-open ALV ALV.J
+open ALV ALV.J ALV.C04
 
-/-- stub: the C04 slice is not built yet -/
-def handle (entry : String) (_j : Json) : Except String Json :=
-  throw s!"C04: unknown entry {entry}"
+/-! Driver for C04.  Numbers are exact rationals.
+
+  entry "call":
+    num, den : [[power, coeff], …]   raw pairs given to `ZFilter(num, den)` (a list is sent as
+               enumerate(list)); mem : null | {"kind":"iter","vals":[…]} |
+               {"kind":"gen","base":q,"step":q} | {"kind":"callable","form":"arith"|"arithrev",
+               "base":q,"step":q} | {"kind":"callable","form":"fixed","vals":[…]};
+    zero : q ; xs : [q …]
+  payload: {"model": {"err":kind} | {"out":[…],"ir":IR,"b":[…],"a":[…],"mem":[…]},
+            "spec" : {"err":kind} | {"out":[…]}}
+  entry "compile":  b, a : dense lists, zero  →  {"ir": IR}
+-/
+
+def getPair (j : Json) : Except String (Int × Rat) := do
+  match j with
+  | Json.arr [k, v] => pure (← getInt k, ← getRat v)
+  | _ => throw s!"expected [power, coeff], got {j.compress}"
+
+def getMem (j : Json) : Except String (Mem Rat) := do
+  match optField j "mem" with
+  | none => pure Mem.none
+  | some m =>
+    let kind ← getStr (← field m "kind")
+    match kind with
+    | "iter" => pure (Mem.iter (← getList getRat (← field m "vals")))
+    | "gen" =>
+      let base ← getRat (← field m "base")
+      let step ← getRat (← field m "step")
+      pure (Mem.gen (fun (i : Nat) => base + (i : Rat) * step))
+    | "callable" =>
+      let form ← getStr (← field m "form")
+      match form with
+      | "fixed" =>
+        let vals ← getList getRat (← field m "vals")
+        pure (Mem.callable (fun _ => vals))
+      | "arith" =>
+        let base ← getRat (← field m "base")
+        let step ← getRat (← field m "step")
+        pure (Mem.callable (fun n => (List.range n).map (fun (i : Nat) => base + (i : Rat) * step)))
+      | "arithrev" =>
+        let base ← getRat (← field m "base")
+        let step ← getRat (← field m "step")
+        pure (Mem.callable (fun n => (List.range n).map (fun (i : Nat) => base + ((n - 1 - i : Nat) : Rat) * step)))
+      | _ => throw s!"unknown callable form {form}"
+    | _ => throw s!"unknown memory kind {kind}"
+
+def varJson : Var → List Json
+  | .d i => [Json.str "d", natToJson i]
+  | .m i => [Json.str "m", natToJson i]
+
+/-- canonical atoms: ["var",v,i] | ["neg",v,i] | ["mul",coef,v,i]; "-{c} * m" is printed with its
+folded constant `-c` (the Python parser cannot tell `-3 * m1` from `{-3} * m1` either) -/
+def atomJson : Atom Rat → Json
+  | .var v => Json.arr (Json.str "var" :: varJson v)
+  | .neg v => Json.arr (Json.str "neg" :: varJson v)
+  | .mul c v => Json.arr (Json.str "mul" :: ratToJson c :: varJson v)
+  | .negMul c v => Json.arr (Json.str "mul" :: ratToJson (-c) :: varJson v)
+
+def gainJson : Gain Rat → Json
+  | .one => Json.arr [Json.str "one"]
+  | .negOne => Json.arr [Json.str "negone"]
+  | .div g => Json.arr [Json.str "div", ratToJson g]
+
+def irJson : IR Rat → Json
+  | .constLoop z => Json.mkObj [("kind", Json.str "const"), ("zero", ratToJson z)]
+  | .loop nm nd sum gain shifts => Json.mkObj [
+      ("kind", Json.str "loop"), ("nm", natToJson nm), ("nd", natToJson nd),
+      ("sum", arr atomJson sum), ("gain", gainJson gain),
+      ("shifts", arr (fun (ts : Var × Var) => Json.arr (varJson ts.1 ++ varJson ts.2)) shifts)]
+
+def errJson (e : Err) : Json := Json.mkObj [("err", Json.str e.name)]
+
+def handle (entry : String) (j : Json) : Except String Json := do
+  match entry with
+  | "call" =>
+    let num ← getList getPair (← field j "num")
+    let den ← getList getPair (← field j "den")
+    let mem ← getMem j
+    let zero ← getRat (← field j "zero")
+    let xs ← getList getRat (← field j "xs")
+    -- model: every intermediate stage is shown, so that the tie sees where a difference enters
+    let model : Json :=
+      match normalise (mkPoly num) (mkPoly den) with
+      | .error e => errJson e
+      | .ok (n, d) =>
+        match call n d mem zero xs with
+        | .error e => errJson e
+        | .ok out =>
+          let a := dense d
+          let b := dense n
+          Json.mkObj [("out", rats out), ("ir", irJson (compile b a zero)),
+                      ("b", rats b), ("a", rats a),
+                      ("mem", rats (memoryOf zero (a.length - 1) mem))]
+    let spec : Json :=
+      match specCall num den mem zero xs with
+      | .error e => errJson e
+      | .ok out => Json.mkObj [("out", rats out)]
+    pure <| Json.mkObj [("model", model), ("spec", spec)]
+  | "compile" =>
+    let b ← getList getRat (← field j "b")
+    let a ← getList getRat (← field j "a")
+    let zero ← getRat (← field j "zero")
+    pure <| Json.mkObj [("ir", irJson (compile b a zero))]
+  | _ => throw s!"C04: unknown entry {entry}"
 
 end ALV.Driver.C04
